@@ -8,7 +8,7 @@ C19 driver. Graph tokens: `<edges> <biases>`; edges = comma list of `a:b:num/den
       → `<state> <energy>` after every step, then the RNG verdict
  thr  <edges> <biases> <beta> <kind spin|edge> <target> <state>
       → `nodraw`|`~p`  <state after an accepted move>
- imp  <edges> <nbiases>            → `~b_k` cumulative selection boundaries (k = 0..E-2), `P` if it panics
+ imp  <edges> <nbiases>            → `~b_k` cumulative selection boundaries (k = 0..E-2); `uniform` when Σ|J| = 0
  kern <kind spin|edge|worm> <edges> <biases> <beta> <imp>
       → `~K(a,b)` for all states a, b (binary counting order, spin 0 = most significant)
  energy <edges> <biases> <state>   → `<get_energy> <edge-list energy>`
@@ -58,23 +58,15 @@ def step (toks : List String) : String :=
     let es := parseEdges edges
     let g := Sampler.new es (List.replicate (parseNat nb) 0) true
     match g.cum with
-    | none => "bad"
+    | none => "uniform"
     | some (table, total) =>
-      if total ≤ 0 then "P"
-      else if !strictlyIncreasing table then "?"
-      else
-        let pos (x : Rat) : Rat := if x < 0 then 0 else x
-        let bs := (table.take (table.length - 1)).map fun v => showApprox (pos v / total)
-        if bs.isEmpty then "-" else String.intercalate " " bs
+      let bs := (table.take (table.length - 1)).map fun v => showApprox (v / total)
+      if bs.isEmpty then "-" else String.intercalate " " bs
   | ["kern", kind, edges, biases, beta, imp] =>
     let g := Sampler.new (parseEdges edges) (parseRats biases) (imp == "1")
     let ch := chOf (parseRat beta)
     let n := g.biases.length
     let sts := statesOrdered n
-    let bad := match g.cum with
-      | some (table, total) => decide (total ≤ 0) || !strictlyIncreasing table
-      | none => false
-    if bad && kind == "edge" then "?" else
     let rowOf (s : List Bool) : List (Rat × List Bool) :=
       if kind == "spin" then spinRow ch g.bm g.biases s
       else if kind == "edge" then edgeRow ch g s
